@@ -10,11 +10,13 @@ ops (first token `C13` already stripped):
         <g>:f=<getters that ran>:w=<slots whose value changed>:c=<cached results rewritten>:i=<input rewritten 0/1>:s=<1 value equals that of a fresh object, 0 not, r recursion limit>
   hist2 <Class> <cfg> <objs> <history> -> as hist, for two objects (0/1) of the class read interleaved
   verdict <Class> <cfg>              -> ni=<0/1>   (noInterferenceB of the resolved table)
+  session <Class> <cfg> <kinds> <ops> <raising> / two <mode> <classes>   -> Model/Sessions.lean (process-level sessions)
 `cfg` = ids of the flags that hold on the constructed object (`-` = none).
 -/
 import Nitime.Model.OneTime
 import Nitime.Model.Proto
 import Nitime.Generated.Analyzers
+import Nitime.Model.Sessions
 
 namespace Nitime.C13
 open Nitime.OneTime Nitime.Proto
@@ -102,7 +104,7 @@ def hist2 (sp : AnalyzerSpec) (cfg objs h : List Nat) (raising : List Nat := [])
   let obs := runObs2 (symSemR raising) sp spec f0 f1 (objs.zip h) f0 f1 []
   if obs.isEmpty then "-" else "|".intercalate (obs.map StepObs.show)
 
-def handle (args : List String) : String :=
+def handleCore (args : List String) : String :=
   match args with
   | ["hist2", cls, cfg, objs, h, r] =>
     match findSpec? cls, parseNatList? cfg, parseNatList? objs, parseNatList? h, parseNatList? r with
@@ -131,5 +133,11 @@ def handle (args : List String) : String :=
     | none, _ => "unknown-class"
     | _, _ => "bad-op"
   | _ => "bad-op"
+
+/-- process-level sessions (`session …`, `two …`: Model/Sessions.lean) first, then the single-object ops -/
+def handle (args : List String) : String :=
+  match Nitime.OneTime.Sessions.handleSession args with
+  | some r => r
+  | none => handleCore args
 
 end Nitime.C13
